@@ -94,6 +94,8 @@ def make_font(rng, widths):
     for i, w in enumerate(widths):
         g = {"name": "g%02d" % i, "width": Fr(w), "unicodes": [0x41 + i] if rng.random() < 0.7 else [], "contours": [],
              "components": []}
+        if i == 1 and rng.random() < 0.35:
+            g["unicodes"] = [rng.choice([0x0, 0x0, 0xD, 0xFFFF, 0x1F600, 0x10FFFF])]     # boundary code points (U+0000 is a valid mapping)
         k = rng.random()
         if k < 0.6:
             x0, y0 = rng.randint(-200, 300), rng.randint(-300, 300)
@@ -127,6 +129,11 @@ def explore(ctx):
     vcases, vmeta = [], []
     for i, widths in enumerate(jobs):
         desc = make_font(rng, widths)
+        if i % 12 == 11:
+            # a character map holding a single boundary code point: only supplementary (F17), only U+0000, ...
+            for g in desc["glyphs"]:
+                g["unicodes"] = []
+            desc["glyphs"][-1]["unicodes"] = [[0x1F600, 0x0, 0x10FFFF, 0xFFFF][(i // 12) % 4]] if desc["glyphs"][-1]["name"] != ".notdef" else []
         flavor = ["ttf", "otf"][i % 2]
         if len(desc["glyphs"]) == 1 and desc["glyphs"][0]["name"] == ".notdef":
             # a CFF font holding only .notdef gets cffsubr's predefined ISOAdobe charset, which fontTools 4.55
@@ -162,6 +169,7 @@ def explore(ctx):
             returned_numh = h.numberOfHMetrics
             head0 = tt["head"]
             returned_head = (head0.xMin, head0.yMin, head0.xMax, head0.yMax)
+            returned_os2 = (tt["OS/2"].usFirstCharIndex, tt["OS/2"].usLastCharIndex)
             buf = io.BytesIO(); tt.save(buf); data1 = buf.getvalue()
             tt2 = TTFont(io.BytesIO(data1))
             buf2 = io.BytesIO(); tt2.save(buf2); data2 = buf2.getvalue()
@@ -195,6 +203,12 @@ def explore(ctx):
         if cps and (os2.usFirstCharIndex != min(cps[0], 0xFFFF) or os2.usLastCharIndex != min(cps[-1], 0xFFFF)):
             ctx.spec_failure(case, "OS/2 first/last char index %r/%r vs cmap %r..%r" % (
                 os2.usFirstCharIndex, os2.usLastCharIndex, cps[0], cps[-1]))
+        # ... and already on the object ufo2ft returned (fontTools recomputes both fields whenever the table is serialised)
+        if cps and returned_os2 != (min(cps[0], 0xFFFF), min(cps[-1], 0xFFFF)):
+            ctx.spec_failure(dict(case, level="OS/2 as returned by ufo2ft"), "OS/2 first/last char index of the returned font %r vs cmap %r..%r" % (
+                returned_os2, cps[0], cps[-1]))
+        if cps and (cps[0] == 0 or cps[-1] > 0xFFFF):
+            ctx.klass("boundary code point in cmap")
         if tt3.getGlyphOrder() != [g["name"] for g in desc["glyphs"]] and ".notdef" in [g["name"] for g in desc["glyphs"]]:
             ctx.spec_failure(case, "glyph names after reload %r" % tt3.getGlyphOrder())
         if "VORG" in tt3:
@@ -211,10 +225,8 @@ def explore(ctx):
             by = {g["name"]: g for g in desc["glyphs"]}
             boxes = {m[0]: m[3] for m in ms}
             gl = []
-            # counting order of setupTable_VORG = iteration order of the compiler's glyph set: the source glyphs,
-            # then the generated .notdef (decides the default only when two origins are equally frequent)
-            src = [g["name"] for g in desc["glyphs"]]
-            count_order = [n for n in src if n in boxes] + [n for n in tt3.getGlyphOrder() if n not in src]
+            # setupTable_VORG counts in glyph order (fix F18): that decides the default when two origins are equally frequent
+            count_order = list(tt3.getGlyphOrder())
             for n in count_order:
                 ex = by.get(n, {}).get("lib", {}).get("public.verticalOrigin")
                 ymax = boxes[n][3] if boxes.get(n) else None
